@@ -563,7 +563,9 @@ def run_no_recursion(eng, p):
                         rec = True
             if rec and qual not in RECURSION_OK:
                 bad.append(f'{modname}.{qual}')
-    p.oblige('C04/nodes/no-recursion-over-the-depth-of-the-input', not bad,
+    # auxiliary (syntactic, may flag harmless recursion): a refutation makes
+    # the check undecided; the native deep-nesting check decides
+    p.oblige('static/nodes/no-recursion-over-the-depth-of-the-input', not bad,
              info={'recursive': bad, 'signature': 'a function that runs on '
                    'the whole input in the main process is recursive: terms '
                    'nested deeper than the recursion limit abort ddSMT'})
@@ -608,7 +610,9 @@ def run_no_swallowed_interrupt(eng, p):
             if not reraises and (rel, fname) not in ok_sites:
                 bad.append(f'{rel}:{h.lineno} except {", ".join(broad)}')
     bad = sorted(set(bad))
-    p.oblige('C04/no-handler-swallows-an-interrupt', not bad,
+    # auxiliary (syntactic): a handler in code that only runs in pool workers
+    # would be harmless; the _worker contract decides for the main process
+    p.oblige('static/no-handler-swallows-an-interrupt', not bad,
              info={'handlers': bad, 'signature': 'a handler catches '
                    'KeyboardInterrupt / SystemExit and goes on: ddSMT '
                    'cannot be interrupted there'})
